@@ -174,7 +174,8 @@ func (s *side) recvString() string {
 func execRK(o hx.Op) string {
 	r := hx.NewRand(o.U64("seed"))
 	cw, sw, n := o.Int("cw"), o.Int("sw"), o.Int("n")
-	size, req, stall, yield := o.Int("size"), o.Int("req"), o.Int("stall") == 1, o.Int("yield")
+	size, req, stallMode, yield := o.Int("size"), o.Int("req"), o.Int("stall"), o.Int("yield")
+	stall := stallMode != 0
 	a, b := newHalf(), newHalf() // a: client→server bytes, b: server→client bytes
 	cconn, sconn := &duplex{r: b, w: a}, &duplex{r: a, w: b}
 	var cs, ss side
@@ -183,11 +184,11 @@ func execRK(o hx.Op) string {
 	ccfg := &ssh.ClientConfig{User: "u", HostKeyCallback: ssh.InsecureIgnoreHostKey()}
 	ccfg.KeyExchanges = []string{"curve25519-sha256"}
 	ccfg.HostKeyAlgorithms = []string{"ssh-ed25519"}
-	ccfg.RekeyThreshold = uint64(o.Int("thr"))
+	ccfg.RekeyThreshold = o.U64("thr")
 	ccfg.Ciphers = []string{o.Str("cipher")}
 	scfg := &ssh.ServerConfig{NoClientAuth: true}
 	scfg.KeyExchanges = []string{"curve25519-sha256"}
-	scfg.RekeyThreshold = uint64(o.Int("sthr"))
+	scfg.RekeyThreshold = o.U64("sthr")
 	scfg.AddHostKey(signer())
 	cs.h = ssh.VerifNewClientHandshakeRec2(cconn, cv, sv, ccfg, cs.wire.rec)
 	ss.h = ssh.VerifNewServerHandshakeRec2(sconn, cv, sv, scfg, ss.wire.rec)
@@ -212,7 +213,7 @@ func execRK(o hx.Op) string {
 		go ss.h.Close()
 		return fmt.Sprintf("r st=%s cwire=%s swire=%s crecv=%s srecv=%s csub=%s ssub=%s cerr=%d serr=%d maxp=%d maxps=%d ck=%d sk=%d",
 			status, cs.wire.String(), ss.wire.String(), cs.recvString(), ss.recvString(), hx.JoinInts(cs.sub), hx.JoinInts(ss.sub),
-			cs.werr.Load(), ss.werr.Load(), cs.maxp.Load(), ss.maxp.Load(), cs.wire.kex, ss.wire.kex)
+			cs.werr.Load(), ss.werr.Load(), cs.maxp.Load(), ss.maxp.Load(), cs.wire.kex, ss.wire.kex) + fmt.Sprintf(" qidle=%v/%v", cs.closed.Load(), ss.closed.Load())
 	}
 	if status != "ok" {
 		return finish()
@@ -224,9 +225,14 @@ func execRK(o hx.Op) string {
 	// monitor: samples the pending-queue length; in a stall run it re-opens the gate once the queue is full
 	var mon sync.WaitGroup
 	mon.Add(1)
+	// the side whose key exchange is held open (its peer's bytes do not arrive), and the held-back direction
+	stalled, held := &cs, b
+	if stallMode == 2 {
+		stalled, held = &ss, a
+	}
 	if stall {
-		b.gate(true) // the server's bytes do not reach the client: the client's key exchange cannot finish
-		cs.h.RequestKeyExchange()
+		held.gate(true)
+		stalled.h.RequestKeyExchange()
 	}
 	go func() {
 		defer mon.Done()
@@ -235,25 +241,28 @@ func execRK(o hx.Op) string {
 		gated := stall
 		for !stop.Load() {
 			for _, s := range []*side{&cs, &ss} {
-				_, p := s.h.KexState()
+				k, p := s.h.KexState()
 				if int64(p) > s.maxp.Load() {
 					s.maxp.Store(int64(p))
 				}
+				if !k && p > 0 { // packets queued although no key exchange is in progress: must never be observable
+					s.closed.Store(true)
+				}
 			}
 			if gated {
-				_, p := cs.h.KexState()
+				_, p := stalled.h.KexState()
 				if p >= ssh.VerifMaxPendingPackets && fullSince.IsZero() {
 					fullSince = time.Now()
 				}
 				// open when the queue has been full for a moment (writers are parked), or after 1.5 s at the latest
 				if (!fullSince.IsZero() && time.Since(fullSince) > 30*time.Millisecond) || time.Since(t0) > 1500*time.Millisecond {
-					b.gate(false)
+					held.gate(false)
 					gated = false
 				}
 			}
 			time.Sleep(100 * time.Microsecond)
 		}
-		b.gate(false)
+		held.gate(false)
 	}()
 
 	var wg sync.WaitGroup
@@ -420,10 +429,109 @@ func execFailKex(o hx.Op) string {
 	return fmt.Sprintf("r st=failkex fk=%d wok=%d cwire=%s", fk, wok, cs.wire.String())
 }
 
+// execCloseKex: Close() on the client while its re-key is open, the queue is full and writers are parked.
+func execCloseKex(o hx.Op) string {
+	nw := o.Int("cw")
+	a, b := newHalf(), newHalf()
+	cconn, sconn := &duplex{r: b, w: a}, &duplex{r: a, w: b}
+	var cs, ss side
+	ccfg := &ssh.ClientConfig{User: "u", HostKeyCallback: ssh.InsecureIgnoreHostKey()}
+	ccfg.KeyExchanges = []string{"curve25519-sha256"}
+	ccfg.Ciphers = []string{o.Str("cipher")}
+	scfg := &ssh.ServerConfig{NoClientAuth: true}
+	scfg.AddHostKey(signer())
+	cv, sv := []byte("SSH-2.0-verifC"), []byte("SSH-2.0-verifS")
+	cs.h = ssh.VerifNewClientHandshakeRec2(cconn, cv, sv, ccfg, cs.wire.rec)
+	ss.h = ssh.VerifNewServerHandshakeRec2(sconn, cv, sv, scfg, ss.wire.rec)
+	defer func() { cconn.Close(); sconn.Close(); go ss.h.Close() }()
+	errc := make(chan error, 2)
+	go func() { errc <- cs.h.WaitSession() }()
+	go func() { errc <- ss.h.WaitSession() }()
+	for i := 0; i < 2; i++ {
+		select {
+		case err := <-errc:
+			if err != nil {
+				return "r st=err closeret=0 released=0 wok=0 fk=0 cwire=" + cs.wire.String()
+			}
+		case <-time.After(10 * time.Second):
+			return "r st=hang closeret=0 released=0 wok=0 fk=0 cwire=" + cs.wire.String()
+		}
+	}
+	go cs.reader()
+	go ss.reader()
+	b.gate(true)
+	cs.h.RequestKeyExchange()
+	t0 := time.Now()
+	for time.Since(t0) < 5*time.Second {
+		if k, _ := cs.h.KexState(); k {
+			break
+		}
+		time.Sleep(100 * time.Microsecond)
+	}
+	// writers: write until an error comes back — they fill the queue (64) and park
+	var wg sync.WaitGroup
+	var werrs atomic.Int64
+	for w := 0; w < nw; w++ {
+		wg.Add(1)
+		go func(w int) {
+			defer wg.Done()
+			for k := 0; k < 100000; k++ {
+				if err := cs.h.WritePacket([]byte{appType, 0xA5, byte(w), byte(k >> 16), byte(k >> 8), byte(k)}); err != nil {
+					werrs.Add(1)
+					return
+				}
+			}
+		}(w)
+	}
+	t0 = time.Now()
+	for time.Since(t0) < 5*time.Second {
+		if k, p := cs.h.KexState(); k && p >= ssh.VerifMaxPendingPackets {
+			break
+		}
+		time.Sleep(100 * time.Microsecond)
+	}
+	time.Sleep(20 * time.Millisecond) // the remaining writers are parked in writeCond.Wait by now
+	closed := make(chan struct{})
+	go func() { cs.h.Close(); close(closed) }()
+	closeret, released := 0, 0
+	select {
+	case <-closed:
+		closeret = 1
+	case <-time.After(10 * time.Second):
+	}
+	done := make(chan struct{})
+	go func() { wg.Wait(); close(done) }()
+	select {
+	case <-done:
+		if int(werrs.Load()) == nw { // every writer ended with an error (none ran to completion: 40·nw > 64)
+			released = 1
+		}
+	case <-time.After(10 * time.Second):
+	}
+	wok := 0
+	for k := 0; k < 10; k++ {
+		if err := cs.h.WritePacket([]byte{appType, 0xA5, 200, 0, 0, byte(k)}); err == nil {
+			wok++
+		}
+	}
+	cs.wire.mu.Lock()
+	fk := 0
+	for i := len(cs.wire.tok) - 1; i >= 0 && cs.wire.tok[i] != "K"; i-- {
+		if strings.HasPrefix(cs.wire.tok[i], "a") {
+			fk++
+		}
+	}
+	cs.wire.mu.Unlock()
+	return fmt.Sprintf("r st=closed closeret=%d released=%d wok=%d fk=%d cwire=%s", closeret, released, wok, fk, cs.wire.String())
+}
+
 func exec(line string) string {
 	o := hx.Parse(line)
 	if o.Cmd != "rk" {
 		return "bad-op"
+	}
+	if o.Str("closekex") == "1" {
+		return execCloseKex(o)
 	}
 	if o.Str("failkex") == "1" {
 		return execFailKex(o)
@@ -433,13 +541,30 @@ func exec(line string) string {
 
 func gen(g *hx.Gen) {
 	r := g.R
-	total := g.Count(220, 20000)
+	total := g.Count(180, 20000)
 	ciphers := []string{"aes128-ctr", "aes128-gcm@openssh.com", "chacha20-poly1305@openssh.com"}
 	// error path (regression for the fixed defect d4069c3): a re-key that fails its host key check while packets are queued
 	for _, q := range []int{1, 10, 64} {
 		g.Emit("rk seed=%d cw=1 sw=0 n=%d thr=0 sthr=0 size=0 req=0 stall=0 yield=0 cipher=%s failkex=1", r.U64()>>1, q, hx.Pick(r, ciphers))
 		g.Stat("failkex")
 	}
+	// Close() during a key exchange with parked writers
+	for _, c := range ciphers {
+		g.Emit("rk seed=%d cw=%d sw=0 n=40 thr=0 sthr=0 size=0 req=0 stall=0 yield=0 cipher=%s closekex=1", r.U64()>>1, r.Range(2, 6), c)
+		g.Stat("closekex")
+		g.Stat("pair.close-during-kex+" + c)
+	}
+	// RekeyThreshold edge values on both sides (0 = cipher default, 255 → 256, 2^63 and 2^64−1 → 2^63−1)
+	edges := []uint64{0, 255, 256, 257, 1 << 63, 1<<64 - 1, 1<<63 - 1}
+	for i, e := range edges {
+		for j, c := range ciphers {
+			se := edges[(i+j+1)%len(edges)]
+			g.Emit("rk seed=%d cw=%d sw=%d n=%d thr=%d sthr=%d size=%d req=%d stall=%d yield=1 cipher=%s", r.U64()>>1, r.Range(1, 4), r.Range(1, 3), r.Range(20, 45), e, se, r.PickInt(0, 40), r.PickInt(1, 3), (i+j)%3, c)
+			g.Stat(fmt.Sprintf("thr.edge.%d", e))
+			g.Stat(fmt.Sprintf("pair.thr-edge:%d+%s", e, c))
+		}
+	}
+	g.Stat(fmt.Sprintf("table.rekeyBytes=%d/%d", 2, 2)) // AES arm (ctr, gcm) and the default arm (chacha20-poly1305) with thr=0
 	for i := 0; i < total; i++ {
 		cw := r.Range(1, 8)
 		sw := r.PickInt(0, 0, 1, 2, 4)
@@ -454,9 +579,37 @@ func gen(g *hx.Gen) {
 			cw = r.Range(2, 8)
 			n = r.Range(40, 70)
 			g.Stat("stall")
+		} else if i%5 == 1 { // the same on the server side: the server initiates, the client's answers are held back
+			stall = 2
+			sw = r.Range(2, 4)
+			n = r.Range(40, 70)
+			g.Stat("stall.server-side")
 		}
 		yield := r.Intn(3)
-		g.Emit("rk seed=%d cw=%d sw=%d n=%d thr=%d sthr=%d size=%d req=%d stall=%d yield=%d cipher=%s", r.U64()>>1, cw, sw, n, thr, sthr, size, req, stall, yield, hx.Pick(r, ciphers))
+		cipher := ciphers[i%len(ciphers)]
+		g.Emit("rk seed=%d cw=%d sw=%d n=%d thr=%d sthr=%d size=%d req=%d stall=%d yield=%d cipher=%s", r.U64()>>1, cw, sw, n, thr, sthr, size, req, stall, yield, cipher)
+		// feature pairs
+		feats := []string{cipher, fmt.Sprintf("stall%d", stall)}
+		if thr <= 512 {
+			feats = append(feats, "small-threshold")
+		}
+		if req > 0 {
+			feats = append(feats, "explicit-rekey")
+		}
+		if sw > 0 {
+			feats = append(feats, "server-writers")
+		}
+		if cw > 1 {
+			feats = append(feats, "many-writers")
+		}
+		if size >= 200 {
+			feats = append(feats, "big-packets")
+		}
+		for x := 0; x < len(feats); x++ {
+			for y := x + 1; y < len(feats); y++ {
+				g.Stat("pair." + feats[x] + "+" + feats[y])
+			}
+		}
 		g.Stat(fmt.Sprintf("cw.%d", cw))
 		if thr <= 512 {
 			g.Stat("thr.small")
